@@ -13,6 +13,7 @@ package main
 
 import (
 	"fmt"
+	"runtime/debug"
 	"sort"
 	"strings"
 
@@ -43,16 +44,16 @@ type item struct {
 	els  []item
 }
 
-func text(s string) item                 { return item{kind: kText, s: s} }
-func pvar(s string) item                 { return item{kind: kVar, s: s} }
-func parent() item                       { return item{kind: kParent} }
-func block(n string, b ...item) item     { return item{kind: kBlock, s: n, body: b} }
-func forIn(xs string, b ...item) item    { return item{kind: kFor, s: xs, val: "i", body: b} }
-func forK(xs string, b ...item) item     { return item{kind: kFor, s: xs, val: "k", body: b} }
-func ifc(c string, b, e []item) item     { return item{kind: kIf, s: c, body: b, els: e} }
-func set(n, v string) item               { return item{kind: kSet, s: n, val: v} }
-func seq(xs ...item) []item              { return xs }
-func inc(expr, clause string) item       { return item{kind: kInc, s: expr, val: clause} }
+func text(s string) item              { return item{kind: kText, s: s} }
+func pvar(s string) item              { return item{kind: kVar, s: s} }
+func parent() item                    { return item{kind: kParent} }
+func block(n string, b ...item) item  { return item{kind: kBlock, s: n, body: b} }
+func forIn(xs string, b ...item) item { return item{kind: kFor, s: xs, val: "i", body: b} }
+func forK(xs string, b ...item) item  { return item{kind: kFor, s: xs, val: "k", body: b} }
+func ifc(c string, b, e []item) item  { return item{kind: kIf, s: c, body: b, els: e} }
+func set(n, v string) item            { return item{kind: kSet, s: n, val: v} }
+func seq(xs ...item) []item           { return xs }
+func inc(expr, clause string) item    { return item{kind: kInc, s: expr, val: clause} }
 
 func printItems(b *strings.Builder, its []item) {
 	for _, it := range its {
@@ -107,22 +108,22 @@ type frame struct {
 }
 
 type model struct {
-	over  map[string][][]item // overriding definitions per block, most-derived first
-	out   strings.Builder
+	over map[string][][]item // overriding definitions per block, most-derived first
+	out  strings.Builder
 	// features observed (for Nontrivial / Class)
-	substituted bool // a block with at least one override was rendered
-	maxDepth    int  // deepest definition index reached through parent()
-	emptySel    bool // an empty definition was rendered (as the winner or through parent())
-	defViaPar   bool // the body where the block stands was reached through parent()
-	skipped     bool // a rendered chain skips a level that does not define the block
+	substituted  bool // a block with at least one override was rendered
+	maxDepth     int  // deepest definition index reached through parent()
+	emptySel     bool // an empty definition was rendered (as the winner or through parent())
+	defViaPar    bool // the body where the block stands was reached through parent()
+	skipped      bool // a rendered chain skips a level that does not define the block
 	defBeforeExt bool // some block definition stands in front of the extends tag of its template
-	blocksRun   int
-	parentCalls int
-	bad         string
+	blocksRun    int
+	parentCalls  int
+	bad          string
 	// programs of several chains (multi.go): the named templates, and what includes did
 	prog          map[string]*tdef
-	includes      int  // included templates rendered
-	inclExtending int  // … of which extend a parent
+	includes      int    // included templates rendered
+	inclExtending int    // … of which extend a parent
 	path          string // the chain that the rendered template resolved to
 }
 
@@ -246,14 +247,14 @@ var layoutName = [...]string{"flat", "for", "if", "nested", "set", "hosted", "ho
 
 // ways to write the parent name
 const (
-	nfSingle = iota // 't0'
-	nfDouble        // "t0"
-	nfVar           // n0            (context variable)
-	nfTernary       // sel ? 't0' : 'nope'
-	nfTernary2      // nsel ? 'nope' : 't0'
-	nfVarConcat     // n0 ~ ''
-	nfParenConcat   // ('t' ~ '0')
-	nfConcat        // 't' ~ '0'      (open finding KF-C10-1)
+	nfSingle      = iota // 't0'
+	nfDouble             // "t0"
+	nfVar                // n0            (context variable)
+	nfTernary            // sel ? 't0' : 'nope'
+	nfTernary2           // nsel ? 'nope' : 't0'
+	nfVarConcat          // n0 ~ ''
+	nfParenConcat        // ('t' ~ '0')
+	nfConcat             // 't' ~ '0'      (open finding KF-C10-1)
 	nNameForms
 )
 
@@ -298,12 +299,12 @@ const maxLevels = 6
 type kase struct {
 	Fam      string
 	Layout   int
-	L        int       // number of templates in the chain (t0 … t{L-1}); t{L-1} is rendered
+	L        int               // number of templates in the chain (t0 … t{L-1}); t{L-1} is rendered
 	Ch       [maxLevels][3]int // Ch[level][block] for level 1…L-1
 	NameForm int
 	Junk     int // 0 none, 1 text outside blocks, 2 text + prints + control structures outside blocks
 	Ctx      int
-	Pad      int // 0 none, 1 every template above 4096 bytes (comment), 2 only the rendered one
+	Pad      int            // 0 none, 1 every template above 4096 bytes (comment), 2 only the rendered one
 	Ext      [maxLevels]int // Ext[level]: where the extends tag of template t{level} stands (xFirst/xMid/xLast), level 1…L-1
 }
 
@@ -661,8 +662,8 @@ func check(c kase) *vlib.Outcome {
 type family struct {
 	name      string
 	maxL      int
-	blocks    []int // indices of the blocks whose choices are enumerated
-	choices   []int // choices each of them takes per level
+	blocks    []int  // indices of the blocks whose choices are enumerated
+	choices   []int  // choices each of them takes per level
 	fixed     [3]int // choice of the blocks that are not enumerated, at every level
 	layouts   []int
 	nameForms []int
@@ -832,14 +833,17 @@ func run(t *vlib.T) {
 }
 
 func main() {
+	// a runaway recursion in the engine under test should end the worker quickly (default limit: 1 GB of stack)
+	debug.SetMaxStack(96 << 20)
 	vlib.Main(vlib.Spec{
 		ID:    "C10",
 		Level: "exploration",
-		Rule: "every extends chain of 1–4 templates × every assignment of {absent, text, empty, parent(), parent() twice, parent() in if/for} to (level, block) × 7 base layouts × 8 ways of writing the parent name × text outside blocks × 3 contexts × padding across the 4096-byte tokenizer switch × position of the extends tag in every extending template (in front of / between / behind its block definitions), as a union of full products (families, see NOTES.md); rendered on a fresh engine and compared with an evaluator of the same AST transcribed from the statement. Non-trivial: the chain has at least two templates and at least one block that is rendered has an overriding definition",
+		Rule:  "every extends chain of 1–4 templates × every assignment of {absent, text, empty, parent(), parent() twice, parent() in if/for} to (level, block) × 7 base layouts × 8 ways of writing the parent name × text outside blocks × 3 contexts × padding across the 4096-byte tokenizer switch × position of the extends tag in every extending template (in front of / between / behind its block definitions), as a union of full products (families, see NOTES.md); rendered on a fresh engine and compared with an evaluator of the same AST transcribed from the statement. Families R: the same chains with a twin template beside every level and a parent name that chooses between the two (10 ways of writing it: conditionals, variables, concatenations; independently at every level), registered once on one engine and rendered three times with contexts that select different parents (x, y, x for every ordered pair of 3–4 contexts; every triple in the thorough tier) — every render must equal the model for its own context. Families I: a page (plain with blocks of its own, or the top of an extends chain of its own; block names a, b, in collide with the widget's) that includes one to three children of one layout (7 patterns of a child and its sibling; literal includes, a loop, includes with a with-clause) between its blocks, inside a default body or inside an overriding definition — every included child must render what it renders on its own and the page's blocks what they render without the includes. Non-trivial: the chain has at least two templates and at least one block that is rendered has an overriding definition (I: … and an included template that extends a parent is really rendered)",
 		Assumptions: []string{
 			"child templates define blocks at top level only and a block name stands in exactly one place of the chain (the statement does not say which definition a re-nested block contributes)",
 			"parent() is only printed ({{ parent() }}), bodies do not assign variables, text outside blocks contains no set",
 			"longer chains, more than three block names and other body shapes are outside the bound",
+			"families I: the included templates do not assign variables (layout `set` is left out there) and never read the loop variable of the including page; include … only is not generated (what an included template sees of the variables is not this property's subject)",
 		},
 		QuickDeadline: 150, ThoroughDeadline: 840,
 		Run: run,
@@ -855,6 +859,43 @@ func main() {
 				}
 				fs = append(fs, fmt.Sprintf("%s: chains<=%d templates, blocks %s over {%s}, %d layouts, %d name forms, %d junk variants, %d contexts, %d padding variants, %d positions of the extends tag per level",
 					f.name, f.maxL, strings.Join(bl, "+"), strings.Join(chs, ","), len(f.layouts), len(f.nameForms), len(f.junks), len(f.ctxs), len(f.pads), max(1, len(f.extPos))))
+			}
+			for _, f := range iFamilies(tier == "thorough") {
+				var bl, chs []string
+				for _, b := range f.blocks {
+					bl = append(bl, blockNames[b])
+				}
+				for _, c := range f.choices {
+					chs = append(chs, choiceName[c])
+				}
+				sib := "rotation of the child's choices"
+				if f.bA != nil {
+					sib = fmt.Sprintf("%d choices for block a", len(f.bA))
+				}
+				fs = append(fs, fmt.Sprintf("%s (includes): widget chains of 2..%d templates, blocks %s over {%s}, sibling: %s, %d layouts, %d name forms, %d junk variants, %d contexts, %d padding variants, %d page shapes, %d include patterns, %d include styles",
+					f.name, f.maxL, strings.Join(bl, "+"), strings.Join(chs, ","), sib, len(f.layouts), len(f.nameForms), len(f.junks), len(f.ctxs), len(f.pads), len(f.shapes), len(f.pats), len(f.styles)))
+			}
+			for _, f := range rFamilies(tier == "thorough") {
+				var bl, chs, sets []string
+				for _, b := range f.blocks {
+					bl = append(bl, blockNames[b])
+				}
+				for _, c := range f.choices {
+					chs = append(chs, choiceName[c])
+				}
+				for _, set := range f.formSets {
+					var ns []string
+					for _, x := range set {
+						ns = append(ns, rformName[x])
+					}
+					sets = append(sets, "{"+strings.Join(ns, ",")+"}")
+				}
+				seqs := "(x,y,x) for every ordered pair of contexts"
+				if f.triples {
+					seqs = "every triple of contexts"
+				}
+				fs = append(fs, fmt.Sprintf("%s (repeated renders on one engine): chains of 2..%d templates, blocks %s over {%s}, %d layouts, parent-name forms per level over %s, junk %d, %d padding variants, render sequences: %s (3 contexts for chains of 2, 4 for longer ones)",
+					f.name, f.maxL, strings.Join(bl, "+"), strings.Join(chs, ","), len(f.layouts), strings.Join(sets, " "), f.junk, len(f.pads), seqs))
 			}
 			cov["families"] = fs
 		},
